@@ -359,6 +359,8 @@ def run(chk):
     _cstr_rule(chk, prog)
     from rules import c17_boot
     c17_boot.run(chk)
+    from rules import c14_boot
+    c14_boot.nilkey(chk)
     _noassert_rule(chk, prog)
     _seenpair_rule(chk, prog)
 
